@@ -501,6 +501,9 @@ class AsyncFIFO(Elaboratable, FIFOInterface):
         # counter in read domain.
         with m.If(r_rst):
             m.d.comb += r_empty.eq(1)
+            # While the read side is being emptied the two pointers `r_level` is computed from belong to
+            # different generations; the queue is empty.
+            m.d.comb += self.r_level.eq(0)
             m.d[self._r_domain] += consume_r_gry.eq(produce_r_gry)
             m.d[self._r_domain] += consume_r_bin.eq(_gray_decode(produce_r_gry))
             m.d[self._r_domain] += self.r_rst.eq(1)
